@@ -94,7 +94,10 @@ struct bresenham_line_rasterizer
             // transpose coordinate system back to proper form if needed
             *d_first++ = needs_flip ? point_t{y, x} : point_t{x, y};
             error_term += slope;
-            if (error_term >= 0.5)
+            // the slope is taken over pixel counts, so on flat lines the error term asks for
+            // one more step than there are rows: never step past the end point's row, the
+            // point would leave the bounding box, e.g. (0,0)-(7,1) gave (6,2)
+            if (error_term >= 0.5 && y != end.y)
             {
                 --error_term;
                 y += y_increment;
